@@ -4,7 +4,7 @@ Enumerated from the LIVE app: every rule of app.url_map x every method the rule 
 added later is included automatically) x credential shapes x instance id {live, unknown,
 externalised-only} x body {none, {}, a valid body for that route} x server state {no instances,
 live session, locked session, externalised state on disk, after authorised traffic on every route
-(most of it ending in errors)}.
+(most of it ending in errors), another server object with another token in use in the same process}.
 Oracle: status is non-success (>= 400) for every non-public rule, and a deep snapshot taken before
 and after the request is identical: instance table, each instance's session state, time/timeout,
 scenario constants/points/run specs of the root bptk and of every instance, the external state
@@ -20,6 +20,7 @@ from mc import core, srv
 
 LEVEL = "exploration"
 TOKEN = "secret-T0ken"
+OTHER_TOKEN = "0ther-Servers-t0ken"     # the valid token of ANOTHER BptkServer object living in the same process
 SM = "smSrv"
 PUBLIC = {"/", "/healthy", "/metrics", "/full-metrics"}
 
@@ -39,6 +40,7 @@ CREDENTIALS = [
     ("tab-separated", "Bearer\t" + TOKEN),
     ("token-first-then-scheme", TOKEN + " Bearer"),
     ("empty-token-word", "Bearer  "),
+    ("another-servers-valid-token", "Bearer " + OTHER_TOKEN),
 ]
 OPEN_CREDENTIALS = [("basic-scheme-right-token", "Basic " + TOKEN), ("bearer-token-trailing-word", "Bearer " + TOKEN + " x")]
 
@@ -81,6 +83,25 @@ def build_state(state, workdir):
         # the instance lives on disk only
         app._instance_manager._instances.pop(ext)
     ids["externalised"] = ext
+    if state == "another-server-in-use":
+        # a second server object with its own token lives in the same process and has served every route to ITS clients: what it
+        # learnt about its own token is nothing to this server
+        sd2 = os.path.join(workdir, "state2")
+        os.makedirs(sd2, exist_ok=True)
+        app2, client2 = srv.make_server(srv.make_factory(0.0, 5.0, 1.0), adapter=FileAdapter(False, sd2), token=OTHER_TOKEN)
+        h2 = srv.auth(OTHER_TOKEN)
+        i2 = srv.start_instance(client2, headers=h2)
+        for (rule, method, endpoint, args) in requests_for(app2):
+            if method in ("OPTIONS", "HEAD"):
+                continue
+            path = rule.replace("<instance_uuid>", i2).replace("<path:filename>", "x.txt")
+            for kw in ({}, {"json": {}}, {"json": VALID_BODIES[endpoint]} if endpoint in VALID_BODIES else {}):
+                try:
+                    r = client2.open(path, method=method, headers=h2, **kw)
+                    r.get_data()
+                    r.close()
+                except Exception:
+                    pass
     if state == "after-authorised-traffic":
         # every route has been used WITH the token before, most of these requests ending in an error (unknown instance, missing or empty
         # body): whatever an authorised request leaves behind in the server must not open the door for the next one without the token
@@ -200,7 +221,7 @@ def describe_diff(a, b):
     return "; ".join(out) or "snapshot differs"
 
 
-STATES = ["no-instances", "live-session", "locked-session", "externalised-on-disk", "after-authorised-traffic"]
+STATES = ["no-instances", "live-session", "locked-session", "externalised-on-disk", "after-authorised-traffic", "another-server-in-use"]
 
 
 def _work(state):
